@@ -83,6 +83,16 @@ func (w *c13World) writePolicy(p *c13Policy) {
 		os.WriteFile(filepath.Join(d, "code", "router.raw"), []byte(fmt.Sprintf("raw version %d\n", p.code[2])), 0644)
 	}
 	os.WriteFile(filepath.Join(d, "code", "router.info"), []byte(`{"model":"Linux"}`), 0644)
+	// two further devices that were never approved (sorted in front of and
+	// behind "router"; the second one has IPv6 code whenever the policy has
+	// an ipv6 directory): they must be listed after every event
+	for _, n := range []string{"aaa", "zzz"} {
+		os.WriteFile(filepath.Join(d, "code", n), []byte("code of "+n+"\n"), 0644)
+		os.WriteFile(filepath.Join(d, "code", n+".info"), []byte(`{"model":"Linux"}`), 0644)
+	}
+	if p.code[1] != 0 {
+		os.WriteFile(filepath.Join(d, "code", "ipv6", "zzz"), []byte("ipv6 code of zzz\n"), 0644)
+	}
 	os.Remove(filepath.Join(w.dir, "policies", "current"))
 	os.Symlink(fmt.Sprintf("p%d", p.n), filepath.Join(w.dir, "policies", "current"))
 }
@@ -313,6 +323,22 @@ func (w *c13World) reference() (mustList, mustOmit bool) {
 	return false, p.disk != "gone" && !w.dmg
 }
 
+// c13OthersMissing: the never-approved devices must be in the output.
+func c13OthersMissing(out string) string {
+	for _, n := range []string{"aaa", "zzz"} {
+		found := false
+		for _, l := range strings.Split(out, "\n") {
+			if strings.TrimSpace(l) == n {
+				found = true
+			}
+		}
+		if !found {
+			return n
+		}
+	}
+	return ""
+}
+
 func runMissingApprove(dir string) (listed bool, out string, err error) {
 	cmd := exec.Command(filepath.Join(core.VerifDir, ".build", "bin", "missing-approve"))
 	cmd.Env = append(os.Environ(), "HOME="+dir)
@@ -384,6 +410,10 @@ func c13Worker(ctx *core.Ctx) *core.Result {
 			if err != nil {
 				res.AddViolation(core.Violation{Property: "C13", Engine: "histx", Space: "bfs", Events: full,
 					Oracle: "exit-status", Signature: "missing-approve-failed", Message: out + err.Error()})
+			} else if miss := c13OthersMissing(out); miss != "" {
+				res.AddViolation(core.Violation{Property: "C13", Engine: "histx", Space: "bfs", Events: full,
+					Oracle: "must-list", Signature: "forgotten-other-device:" + miss,
+					Message: fmt.Sprintf("device %q was never approved but is not listed; output: %q; state: %s", miss, out, w.canon())})
 			} else if mustList && !listed {
 				st, _ := os.ReadFile(filepath.Join(dir, "status", "router"))
 				res.AddViolation(core.Violation{Property: "C13", Engine: "histx", Space: "bfs", Events: full,
@@ -506,7 +536,7 @@ func init() {
 		Run: c13Run,
 		Meta: func(tier string) core.Meta {
 			return core.Meta{ID: "C13", Level: "model_checking",
-				Rule: "breadth-first search over event histories with canonical-state de-duplication (version ids by first appearance, times and policy numbers by rank); events: new policy {same code, v4/v6/raw differs, ipv6 file dropped, raw file dropped (a dropped file can come back with new content)}, approve ok, approve failed, compare (result computed from the world), manual drift, manual repair, bzip2 of the oldest plain non-current policy (real bzip2), removal of the oldest non-current policy, status damage {empty, 1/3, 2/3, len-1, garbage}; every event advances the clock and runs the real status.SetApprove/SetCompare on a real directory tree; after every event the real missing-approve binary runs on that tree; reference = latest conclusive observation tracked from the event list: must-list if it does not establish equality with the current code, must-omit if it does, the observed policy is on disk and the status file is undamaged; non-trivial = states where one of the two obligations applies; every transition is an implementation run (traces_validated = transitions); end to end: for every device type x {do-approve, do-approve --brief} x {compare, approve} x {device differs, device equal, differs with a device error} the real do-approve runs against the simulator and the real missing-approve must list / omit the device accordingly",
+				Rule: "breadth-first search over event histories with canonical-state de-duplication (version ids by first appearance, times and policy numbers by rank); events: new policy {same code, v4/v6/raw differs, ipv6 file dropped, raw file dropped (a dropped file can come back with new content)}, approve ok, approve failed, compare (result computed from the world), manual drift, manual repair, bzip2 of the oldest plain non-current policy (real bzip2), removal of the oldest non-current policy, status damage {empty, 1/3, 2/3, len-1, garbage}; every event advances the clock and runs the real status.SetApprove/SetCompare on a real directory tree; after every event the real missing-approve binary runs on that tree (which also holds two never-approved devices sorted around the one under test - they must always be listed); reference = latest conclusive observation tracked from the event list: must-list if it does not establish equality with the current code, must-omit if it does, the observed policy is on disk and the status file is undamaged; non-trivial = states where one of the two obligations applies; every transition is an implementation run (traces_validated = transitions); end to end: for every device type x {do-approve, do-approve --brief} x {compare, approve} x {device differs, device equal, differs with a device error} the real do-approve runs against the simulator and the real missing-approve must list / omit the device accordingly",
 				Assumptions: []string{"status written by the harness through status.SetApprove/SetCompare as doapprove.Main does after a run (do-approve's own derivation of failed/changed is covered by C09)",
 					"strictly increasing clock, one second per event"},
 				Bounds: map[string]any{"quick": "depth 5", "thorough": "depth 7"},
